@@ -1,6 +1,6 @@
 use crate::{
   prelude::*,
-  rc::{MutArc, RcDerefMut},
+  rc::{MutArc, RcDeref, RcDerefMut},
 };
 use std::time::Duration;
 
@@ -36,6 +36,10 @@ impl ThrottleEdge {
   }
 }
 
+// The pending trailing task, shared with the subscription handed back to
+// the subscriber so that `unsubscribe` cancels it.
+type RcHandler = MutArc<Option<TaskHandle<NormalReturn<()>>>>;
+
 impl<Item, Err, O, S, SD, F> Observable<Item, Err, O> for ThrottleOp<S, SD, F>
 where
   Item: Clone,
@@ -44,7 +48,7 @@ where
   F: FnMut(&Item) -> Duration,
   ThrottleObserver<O, SD, Item, F>: Observer<Item, Err>,
 {
-  type Unsub = S::Unsub;
+  type Unsub = ZipSubscription<S::Unsub, RcHandler>;
 
   fn actual_subscribe(self, observer: O) -> Self::Unsub {
     let Self {
@@ -54,14 +58,16 @@ where
       edge,
     } = self;
 
-    source.actual_subscribe(ThrottleObserver {
+    let task_handler: RcHandler = MutArc::own(None);
+    let u = source.actual_subscribe(ThrottleObserver {
       observer: MutArc::own(Some(observer)),
       edge,
       duration_selector,
       trailing_value: MutArc::own(None),
-      task_handler: TaskHandle::value_handle(NormalReturn::new(())),
+      task_handler: task_handler.clone(),
       scheduler,
-    })
+    });
+    ZipSubscription::new(u, task_handler)
   }
 }
 
@@ -76,7 +82,7 @@ pub struct ThrottleObserver<O, SD, Item, F> {
   edge: ThrottleEdge,
   duration_selector: F,
   trailing_value: MutArc<Option<Item>>,
-  task_handler: TaskHandle<NormalReturn<()>>,
+  task_handler: RcHandler,
 }
 
 impl<Item, Err, O, SD, F> Observer<Item, Err>
@@ -94,7 +100,12 @@ where
       if self.edge.tailing {
         *self.trailing_value.rc_deref_mut() = Some(value.clone());
       }
-      if self.task_handler.is_closed() {
+      let window_closed = self
+        .task_handler
+        .rc_deref()
+        .as_ref()
+        .map_or(true, |h| h.is_closed());
+      if window_closed {
         let delay = (self.duration_selector)(&value);
         if self.edge.leading {
           // Emitted on the leading edge: it must not be emitted again on the
@@ -106,7 +117,8 @@ where
           throttle_task,
           (self.observer.clone(), self.trailing_value.clone()),
         );
-        self.task_handler = self.scheduler.schedule(task, Some(delay));
+        let handler = self.scheduler.schedule(task, Some(delay));
+        *self.task_handler.rc_deref_mut() = Some(handler);
       }
     }
   }
